@@ -606,6 +606,65 @@ func cpuGen(c *Ctx) {
 		}
 		e.flush()
 	}
+	if c.Want("edge") {
+		// boundary operand bytes and boundary pointer low bytes for every opcode (address carries, zero displacements, ...)
+		rng := c.Rand(110)
+		e := em("edge")
+		b1s := []int{0x00, 0x01, 0x7f, 0x80, 0xfe, 0xff}
+		b2s := []int{0x00, 0x01, 0x7f, 0x80, 0xc1, 0xd0, 0xff}
+		for _, o := range ops {
+			if o.cb {
+				continue
+			}
+			for _, b1 := range b1s {
+				for _, b2 := range b2s {
+					ob := []int{o.op, b1, b2}
+					pre := draw(rng, ob, func() []int { return randRegs(rng, 0xc200, 0xcf00) })
+					ob[2] = b2 // draw may have re-rolled it; keep the boundary value when the state allows it
+					if !okState(pre, ob) {
+						continue
+					}
+					e.add(rig.unit(pre, ob, place(rng, pre, ob)))
+				}
+			}
+		}
+		lows := []int{0x00, 0x01, 0xfe, 0xff}
+		for _, o := range ops {
+			for _, lo := range lows {
+				for rep := 0; rep < 2; rep++ {
+					ob := opBytes(o.op, o.cb, rng.Intn(256), 0xd0+rng.Intn(8))
+					pre := draw(rng, ob, func() []int {
+						s := regionRegs(rng, 0xd000, 0xdd00)
+						s[3], s[5], s[7] = lo, lo, lo
+						s[8] = s[8]&0xff00 | lo
+						if rep == 1 {
+							// HRAM / high page for the FF00+C forms and stack wrap-around inside RAM
+							s[8] = 0xff80 + rng.Intn(0x70)&0xfc | lo&3
+						}
+						return s
+					})
+					e.add(rig.unit(pre, ob, place(rng, pre, ob)))
+				}
+			}
+		}
+		e.flush()
+	}
+	if c.Want("seq") {
+		// generated programs executed back to back WITHOUT resetting the CPU between instructions:
+		// anything an instruction leaves behind for its successor (stale per-instruction context) shows here
+		rng := c.Rand(111)
+		count := 150
+		if thorough {
+			count = 2500
+		}
+		for i := 0; i < count; i++ {
+			prog := genProgram(rng, 0xc100, 48)
+			regs := regionRegs(rng, 0xd000, 0xdd00)
+			regs[8] = 0xdf80
+			regs[9] = 0xc100
+			w.Put(rig.runSeq(fmt.Sprintf("cpu-seq-%d", i), regs, 0xc100, prog, rng.Int63n(1<<30), 70))
+		}
+	}
 	if c.Want("mem") {
 		// every opcode with all pointers steered into each memory region (C03: addressed location)
 		rng := c.Rand(108)
@@ -740,6 +799,10 @@ func cpuRerun(c *Ctx) {
 	rig := newCPURig()
 	w := trace.NewWriter(c.Out, "cpu-rerun", 1<<30)
 	for _, s := range scs {
+		if rm, ok := s.Reset.(map[string]any); ok && rm["seq"] != nil {
+			w.Put(rig.runSeq(s.ID, trace.Ints(rm["regs"]), trace.Int(rm["base"]), trace.Ints(rm["code"]), int64(trace.Int(rm["dseed"])), trace.Int(rm["units"])))
+			continue
+		}
 		out := &trace.Scenario{ID: s.ID, Reset: []int{}}
 		for _, e := range s.Ev {
 			switch trace.Int(e[0]) {
@@ -769,4 +832,160 @@ func cpuRerun(c *Ctx) {
 		w.Put(out)
 	}
 	w.Close()
+}
+
+// genProgram lays out a random instruction sequence at base. Control transfers
+// target the start of the following instruction (or skip one 1-byte
+// instruction), 16-bit loads keep pointers in the data area, and the classes
+// are weighted so that conditional transfers, CB-prefixed (HL) operations and
+// memory accesses follow each other often.
+func genProgram(rng *rand.Rand, base int, n int) []int {
+	var code []int
+	oneByte := []int{0x00, 0x04, 0x0c, 0x14, 0x1c, 0x3c, 0x3d, 0x05, 0x0d, 0x87, 0xa8, 0xb1, 0x2f, 0x37, 0x3f, 0x07, 0x17, 0x27, 0x47, 0x79}
+	for i := 0; i < n; i++ {
+		at := base + len(code)
+		switch r := rng.Intn(100); {
+		case r < 12: // JR cc / JR with displacement 0 or skipping one 1-byte instruction
+			op := []int{0x20, 0x28, 0x30, 0x38, 0x18}[rng.Intn(5)]
+			if rng.Intn(2) == 0 {
+				code = append(code, op, 0x00)
+			} else {
+				code = append(code, op, 0x01, oneByte[rng.Intn(len(oneByte))])
+			}
+		case r < 20: // JP cc,nn / JP nn / CALL cc,nn to the next instruction
+			op := []int{0xc2, 0xca, 0xd2, 0xda, 0xc3, 0xc4, 0xcc, 0xd4, 0xdc, 0xcd}[rng.Intn(10)]
+			t := at + 3
+			code = append(code, op, t&0xff, t>>8)
+		case r < 24: // RET cc: the stack is prefilled with the address of a NOP sled; rare
+			code = append(code, []int{0xc5, 0xd5, 0xe5, 0xf5, 0xc1, 0xd1, 0xf1}[rng.Intn(7)])
+		case r < 44: // CB-prefixed, (HL) forms boosted
+			cb := rng.Intn(256)
+			if rng.Intn(2) == 0 {
+				cb = cb&0xf8 | 6
+			}
+			code = append(code, 0xcb, cb)
+		case r < 54: // loads that keep pointers in the data area
+			switch rng.Intn(4) {
+			case 0:
+				code = append(code, 0x21, rng.Intn(256), 0xd0+rng.Intn(12))
+			case 1:
+				code = append(code, 0x01, rng.Intn(256), 0xd0+rng.Intn(12))
+			case 2:
+				code = append(code, 0x11, rng.Intn(256), 0xd0+rng.Intn(12))
+			case 3:
+				code = append(code, 0x26, 0xd0+rng.Intn(12))
+			}
+		case r < 64: // memory through HL / BC / DE / nn / FF00+n
+			op := []int{0x02, 0x0a, 0x12, 0x1a, 0x22, 0x2a, 0x32, 0x3a, 0x34, 0x35, 0x36, 0x46, 0x4e, 0x70, 0x77, 0x7e, 0x86, 0x96, 0xbe, 0xea, 0xfa, 0xe0, 0xf0, 0xe2, 0xf2, 0x08}[rng.Intn(26)]
+			switch op {
+			case 0x36:
+				code = append(code, op, rng.Intn(256))
+			case 0xea, 0xfa, 0x08:
+				code = append(code, op, rng.Intn(256), 0xd0+rng.Intn(12))
+			case 0xe0, 0xf0:
+				code = append(code, op, 0x80+rng.Intn(0x70))
+			case 0xe2, 0xf2:
+				code = append(code, 0x0e, 0x80+rng.Intn(0x70), op)
+			default:
+				code = append(code, op)
+			}
+		default: // anything else that is one to two bytes long and does not move SP or PC
+			for {
+				op := rng.Intn(256)
+				if undefinedOps[op] || op == 0x10 || op == 0x76 || op == 0xcb {
+					continue
+				}
+				x, z, y := op>>6, op&7, (op>>3)&7
+				if x == 3 && (z == 0 || z == 1 || z == 2 || z == 3 || z == 4 || z == 5 || z == 7) {
+					continue // RET/POP/JP/CALL/PUSH/RST/LDH/EI/DI handled elsewhere or excluded
+				}
+				if x == 0 && (z == 0 || (z == 1 && y&1 == 0) || op == 0x31 || op == 0x33 || op == 0x3b || op == 0x39) {
+					continue // NOP/JR/LD rr,nn/SP arithmetic
+				}
+				if op == 0xf9 || op == 0xe8 || op == 0xf8 || op == 0xe9 {
+					continue
+				}
+				if x == 0 && z == 6 || x == 3 && z == 6 {
+					code = append(code, op, rng.Intn(256))
+				} else {
+					code = append(code, op)
+				}
+				break
+			}
+		}
+	}
+	// land on a NOP sled
+	for i := 0; i < 8; i++ {
+		code = append(code, 0x00)
+	}
+	return code
+}
+
+// runSeq executes a program from regs without touching the CPU between units.
+// Units whose candidate data addresses overlap their own bytes (or FE00-FEFF)
+// are recorded as kind 0 (not judged).
+func (r *cpuRig) runSeq(id string, regs []int, base int, code []int, dseed int64, maxUnits int) *trace.Scenario {
+	m := r.m
+	drng := rand.New(rand.NewSource(dseed))
+	for a := 0xd000; a < 0xde00; a++ {
+		r.poke(a, drng.Intn(256))
+	}
+	for a := 0xff80; a < 0xfffe; a++ {
+		r.poke(a, drng.Intn(256))
+	}
+	for a := 0xc000; a < 0xc800; a++ {
+		r.poke(a, 0)
+	}
+	for i, b := range code {
+		r.poke(base+i, b)
+	}
+	// stack: return addresses into the NOP sled after the program
+	sled := base + len(code) - 6
+	for a := 0xdf00; a < 0xe000; a += 2 {
+		r.poke(a, sled&0xff)
+		r.poke(a+1, sled>>8)
+	}
+	m.M.Write(0x0000, 0x0a)
+	m.I.Disable()
+	m.I.WriteIE(0)
+	m.I.WriteIF(0)
+	m.CPU.VerifSet(regsFrom(regs))
+	sc := &trace.Scenario{ID: id, Reset: map[string]any{"seq": 1, "regs": regs, "base": base, "code": code, "dseed": dseed, "units": maxUnits}}
+	for u := 0; u < maxUnits; u++ {
+		pre := regsOf(m.CPU.VerifGet())
+		pc := pre[9]
+		if pc < base || pc >= base+len(code)-3 {
+			break
+		}
+		ob := []int{int(m.M.VerifPeek(uint16(pc))), int(m.M.VerifPeek(uint16(pc + 1))), int(m.M.VerifPeek(uint16(pc + 2)))}
+		if undefinedOps[ob[0]] || ob[0] == 0x10 || ob[0] == 0x76 || ob[0] == 0xfb {
+			break
+		}
+		if m.P.ReadLCDC()&0x80 != 0 || m.I.Enabled() {
+			break // a store switched the LCD on / IME on: outside this family's precondition
+		}
+		r.bus = nil
+		n := 0
+		r.cpuOn = true
+		for {
+			r.cycle = n + 1
+			m.CPU.ExecuteMachineCycle()
+			n++
+			if m.CPU.VerifAtBoundary() || n >= 12 {
+				break
+			}
+		}
+		r.cpuOn = false
+		post := regsOf(m.CPU.VerifGet())
+		bus := r.bus
+		if bus == nil {
+			bus = [][]int{}
+		}
+		kind := 1
+		if !okState(pre, ob) {
+			kind = 0
+		}
+		sc.Ev = append(sc.Ev, []any{kind, pre, ob, bus, post, n})
+	}
+	return sc
 }
